@@ -11,6 +11,7 @@ import FlatccModel.Layout
 import FlatccModel.Trie
 import FlatccModel.TrieGen
 import FlatccModel.Builder
+import FlatccModel.Alloc
 /-! `fmodel`: executes the model's definitions on protocol lines (stdin → stdout, one result line per op line). -/
 open Flatcc Flatcc.Util
 
@@ -474,10 +475,20 @@ def buildOp (args : List String) : String :=
     s!"ok {al} {bytesToHex bytes} {if es.isEmpty then "-" else es}"
   | _ => "bad-op"
 
+def allocOp (args : List String) : String :=
+  match args with
+  | [hint, len0, reqs] =>
+    let (_, outs) := (reqs.splitOn ",").foldl (fun (acc : Nat × List String) r =>
+      let l := Flatcc.Alloc.defaultAlloc acc.1 r.toNat! hint.toNat!
+      (l, acc.2 ++ [toString l])) (len0.toNat!, [])
+    ",".intercalate outs
+  | _ => "bad-op"
+
 def step (line : String) : String :=
   match line.trimAscii.toString.splitOn " " with
   | "num" :: args => numOp args
   | "build" :: args => buildOp args
+  | "alloc" :: args => allocOp args
   | "refmap" :: args => refmapOp args
   | "ident" :: args => identOp args
   | "emit" :: args => emitOp args
